@@ -20,11 +20,11 @@ RULE = ('two families, each through the real TcpTransport (on simulated socket+s
         'distinct = event-log digests')
 ASSUMPTIONS = ['the deciding runs use a model of the kernel endpoint (real sockets cannot be replayed); the model is compared with the loopback stack by ./check selftest-sockmodel, outside the registered checks',
                'real: TcpTransport, TcpTransportAsync, asyncio.StreamReader/StreamWriter/StreamReaderProtocol, async_timeout']
-EXPECT_PROBES = {'all': ['c18_script', 'c18_session', 'c18_timeout_seen', 'c18_short_read', 'c18_reconnect', 'c18_double_close', 'short_writes', 'backpressure_pause', 'c18_peer_reset', 'peer_eof']}
+EXPECT_PROBES = {'all': ['c18_script', 'c18_session', 'c18_timeout_seen', 'c18_short_read', 'c18_reconnect', 'c18_double_close', 'short_writes', 'backpressure_pause', 'c18_peer_reset', 'peer_eof', 'c18_poll_with_data']}
 REAL_VS_STUB = {'real': ['adb_shell.transport.tcp_transport.TcpTransport', 'adb_shell.transport.tcp_transport_async.TcpTransportAsync', 'asyncio streams + async_timeout',
                          'adb_shell.adb_device[_async] (session family)'],
                 'stub': ['kernel socket + select (simadb.simsock)', 'asyncio.Transport + event loop selector (simadb.simsock / aioloop)', 'peer: raw byte script or adbd model', 'clock']}
-OWN = ('read-too-long', 'bytes-differ', 'timeout-early', 'timeout-missing', 'lost-after-timeout', 'close-not-idempotent', 'reconnect-failed', 'write-lost', 'wrong-result',
+OWN = ('read-too-long', 'bytes-differ', 'timeout-early', 'timeout-missing', 'timeout-with-data', 'lost-after-timeout', 'close-not-idempotent', 'reconnect-failed', 'write-lost', 'wrong-result',
        'unexpected-exception', 'timeout-instead-of-result', 'differs-from-memory', 'hang', 'no-termination', 'wire-format', 'wrong-exception', 'missing-exception')
 KINDS = ['shell', 'exec_out', 'list', 'stat', 'pull', 'push']
 
@@ -38,6 +38,10 @@ def gen_script(g):
         chunks.append([delay, g.bytes(n).hex()])
         total += n
     ops = [{'op': 't_connect', 'timeout': g.pick([None, 1.0, 5.0])}]
+    if g.chance(0.3):
+        # a poll: everything the peer wrote has arrived long ago, the read is given a timeout of 0 -- it returns what is there
+        ops.append({'op': 'sleep', 'dt': sum(c[0] for c in chunks) + 5.0})
+        ops.append({'op': 't_read', 'n': g.pick([1, 24, 4096]), 'timeout': 0, 'poll_with_data': True})
     # reads: enough to drain everything, with timeouts smaller than some pauses
     want = total
     guard = 0
@@ -130,6 +134,8 @@ def eval_script(case, tapes, out):
     recs = run.results[0]
     pr = out['probes']
     pr['c18_script'] = 1
+    if any(o.get('poll_with_data') for o in scn['actors'][0]):
+        pr['c18_poll_with_data'] = 1
     sess_bytes = bytes(b''.join(bytes.fromhex(h) for (_, h) in scn['device']['script']))
     written = bytearray()
     sessions = []          # bytes read per connection
@@ -181,6 +187,8 @@ def eval_script(case, tapes, out):
                     short = True
                 sessions[-1] += v
                 last_read_timed_out[len(sessions) - 1] = False
+            elif r['exc'] == 'TcpTimeoutException' and op.get('poll_with_data') and len(sess_bytes) > len(sessions[-1]):
+                probs.append(O.P('timeout-with-data', 'op#%d bulk_read(%d, 0) raised TcpTimeoutException although %d bytes from the peer had been waiting for %.1f s' % (i, op['n'], len(sess_bytes) - len(sessions[-1]), recs[i - 1]['spec'].get('dt', 0))))
             elif r['exc'] == 'TcpTimeoutException':
                 tmo = True
                 last_read_timed_out[len(sessions) - 1] = True
